@@ -86,7 +86,11 @@ struct Sim {
 	int realloc_mode = 0;     // 0 = libc decides, 1 = always move, 2 = (libc) in place when possible
 	uint64_t mallocs = 0, reallocs = 0, realloc_moved = 0, frees = 0;
 	bool track_blocks = false;
-	std::map<void *, size_t> * blocks = nullptr;   // live blocks allocated inside library calls
+	struct Block { size_t n; int tag; };
+	std::map<void *, Block> * blocks = nullptr;    // live blocks allocated inside library calls
+	int alloc_tag = 0;                             // attribution tag given to new blocks (realloc inherits the old block's tag)
+	uintptr_t range_lo = 0, range_hi = 0;          // blocks allocated by code in this text range get range_tag instead
+	int range_tag = 0;
 	// file system
 	std::map<std::string, SimFile> files;
 	std::vector<OpenRecord> open_log;
